@@ -159,7 +159,7 @@ def run_malformed(case):
         return ([float(env.broker.holdings_quantity.get(x, 0.0)).hex() for x in b.contracts], len(env.broker.track_record))
 
     for j in range(1, nsteps + 1):
-        act = malformed_action(case) if j == jm else E.to_action(case["actions"][j - 1])
+        act = malformed_action(case) if j == jm else E.to_action(case["actions"][j - 1], case.get("action_type", "array64"))
         before = state()
         try:
             obs, reward, done, info = env.step(act)
@@ -196,7 +196,7 @@ def run_malformed(case):
         env.reset()
         for j in range(1, nsteps + 1):
             try:
-                obs, reward, done, info = env.step(E.to_action(case["actions"][j - 1]))
+                obs, reward, done, info = env.step(E.to_action(case["actions"][j - 1], case.get("action_type", "array64")))
             except Exception as exc:  # noqa
                 res.fail("episode 2 submits only valid actions but step %d raised %s (a pending action of episode 1 leaked)" % (j, type(exc).__name__))
                 break
